@@ -32,8 +32,9 @@ Two levels as in C01: `SStmt` is the faithful syntax the generator sees (`ArrL.C
 leaner syntax of the reference semantics `ArrL.Ref`; `desugar` relates them.
 
 Excluded: procedures, records, fixed-length strings, SHARED / CONST, GOSUB / GOTO / labels, ON ERROR, whole arrays
-anywhere but as the first argument of LBOUND / UBOUND, DATA inside blocks, and (`SStmt.wf`) a READ statement that has
-an array element among SEVERAL targets (see the report: the real READ resolves all targets before it reads).
+anywhere but as the first argument of LBOUND / UBOUND, DATA inside blocks (`SStmt.wf`).  (`READ a, b` reads its targets one
+after the other — since fd1c771 the generator emits one built-in call per target — so a READ with several targets, array
+elements among them, is in the language.)
 -/
 namespace RbModel.ArrL
 open RbModel RbModel.Num
@@ -244,12 +245,10 @@ def SProgram.toAst (sp : SProgram) : Program :=
 /-! ### well-formedness (decidable; the driver checks it on every program) -/
 
 mutual
-/-- `top`: the statement is a top-level statement of the program (DATA is allowed only there); a READ with an
-array-element target has exactly one target -/
+/-- `top`: the statement is a top-level statement of the program (DATA is allowed only there) -/
 def SStmt.wf (top : Bool) : SStmt → Bool
   | .seq a b => a.wf top && b.wf top
   | .data _ _ => top
-  | .read tgs _ => tgs.length ≤ 1 || !tgs.any ReadTarget.isElem
   | .ifBlock _ thn elifs _ els _ => thn.wf false && elifs.wf && els.wf false
   | .select _ cases _ els _ => cases.wf && els.wf false
   | .forLoop _ _ _ _ _ body _ => body.wf false
